@@ -3,6 +3,7 @@ package c11
 import (
 	"encoding/json"
 	"fmt"
+	"github.com/caddyserver/certmagic"
 	"io"
 	"log"
 	"os"
@@ -125,6 +126,11 @@ func childInit(args []string) ([]*Case, time.Duration, time.Duration, error) {
 	}
 	log.SetOutput(io.Discard)
 	casket.Quiet = true
+	// names that qualify for managed TLS make a real start ask the CA in the
+	// background: point it at a closed loopback port
+	certmagic.DefaultACME.CA = "https://127.0.0.1:1/directory"
+	certmagic.DefaultACME.Email = "verif@verif.test"
+	certmagic.DefaultACME.Agreed = true
 	return cases, time.Duration(tp) * time.Millisecond, time.Duration(tm) * time.Millisecond, nil
 }
 
@@ -140,17 +146,29 @@ func linger() {
 // workerParked inspects this process' own goroutines and reports whether the
 // worker goroutine is parked in a mutex inside casket code.
 func workerParked() string {
+	return parkedWorkerIn(ownDump())
+}
+
+func ownDump() string {
 	buf := make([]byte, 32<<20)
 	n := runtime.Stack(buf, true)
-	return parkedWorkerIn(string(buf[:n]))
+	return string(buf[:n])
 }
+
+var (
+	lockStates = []string{"sync.Mutex.Lock", "semacquire", "sync.RWMutex", "sync.WaitGroup", "chan receive", "chan send"}
+	// waiting for bytes from a peer, directly or through net/http's round trip
+	ioStates = []string{"IO wait", "select"}
+)
 
 var casketFnRe = regexp.MustCompile(`github\.com/tmpim/casket/?([A-Za-z0-9_/\.\(\)\*]+)\(`)
 
 // parkedWorkerIn finds, in a goroutine dump, the worker goroutine (it has one
 // of our load functions on its stack) parked in sync.(*Mutex).Lock /
 // sync.(*RWMutex) / semacquire below a casket frame; it returns that frame.
-func parkedWorkerIn(dump string) string {
+func parkedWorkerIn(dump string) string { return parkedIn(dump, lockStates) }
+
+func parkedIn(dump string, states []string) string {
 	for _, g := range strings.Split(dump, "\n\n") {
 		if i := strings.Index(g, "goroutine "); i > 0 {
 			g = g[i:]
@@ -165,10 +183,16 @@ func parkedWorkerIn(dump string) string {
 		if i := strings.Index(g, "\n"); i > 0 {
 			head = g[:i]
 		}
-		if !(strings.Contains(head, "sync.Mutex.Lock") || strings.Contains(head, "semacquire") ||
-			strings.Contains(head, "sync.RWMutex") || strings.Contains(head, "sync.WaitGroup") ||
-			strings.Contains(head, "chan receive") || strings.Contains(head, "chan send")) {
+		in := false
+		for _, st := range states {
+			in = in || strings.Contains(head, st)
+		}
+		if !in {
 			continue
+		}
+		if len(states) == len(ioStates) && !strings.Contains(g, "net/http.(*Client)") && !strings.Contains(g, "net.(*conn).Read") &&
+			!strings.Contains(g, "net.(*Dialer)") && !strings.Contains(g, "net.(*netFD)") {
+			continue // a select that is not about the network
 		}
 		for _, l := range strings.Split(g, "\n") {
 			if strings.HasPrefix(l, "\t") {
@@ -193,11 +217,11 @@ func frameName(f string) string {
 func watchdog(tPark, tMax time.Duration) {
 	last := progress.Load()
 	since := time.Now()
-	parkedSeen := 0
+	parkedSeen, ioSeen := 0, 0
 	for {
 		time.Sleep(200 * time.Millisecond)
 		if p := progress.Load(); p != last {
-			last, since, parkedSeen = p, time.Now(), 0
+			last, since, parkedSeen, ioSeen = p, time.Now(), 0, 0
 			continue
 		}
 		idle := time.Since(since)
@@ -210,6 +234,17 @@ func watchdog(tPark, tMax time.Duration) {
 				}
 			} else {
 				parkedSeen = 0
+			}
+		}
+		if why == "" && idle >= 6*tPark {
+			// blocked on a network peer for several seconds, in every sample
+			if f := parkedIn(ownDump(), ioStates); f != "" {
+				ioSeen++
+				if ioSeen >= 5 {
+					why = "iowait " + f
+				}
+			} else {
+				ioSeen = 0
 			}
 		}
 		if why == "" && idle >= tMax {
@@ -241,12 +276,28 @@ func loadValidate(text string) (res runRes) {
 	return
 }
 
+var refusedAddrRe = regexp.MustCompile(`127\.0\.0\.1:1\b`)
+
+// silentText is the case with every address token pointing at the monitor's
+// silent peer (a listener that takes connections and never answers) instead
+// of a closed port: a setup that talks to the peers named in its arguments
+// then does not come back.
+func silentText(text string) string {
+	if p := os.Getenv("VERIF_C11_SILENT"); p != "" {
+		return refusedAddrRe.ReplaceAllString(text, "127.0.0.1:"+p)
+	}
+	return text
+}
+
 func validateTwice(k *Case) []runRes {
 	text := k.Text("127.0.0.1:2015")
 	var out []runRes
 	for run := 1; run <= 2; run++ {
 		outf("B %d %d\n", k.ID, run)
 		progress.Add(1)
+		if run == 2 {
+			text = silentText(text)
+		}
 		r := loadValidate(text)
 		out = append(out, r)
 		pb, _ := json.Marshal(runRes{Acc: r.Acc, Err: r.Err, Panic: r.Panic})
@@ -468,8 +519,7 @@ func subStart(args []string) int {
 		if f == nil {
 			continue
 		}
-		port := lib.FreePort()
-		addr := fmt.Sprintf("127.0.0.1:%d", port)
+		addr := k.Addr(lib.FreePort(), lib.FreePort())
 		outf("B %d 1\n", k.ID)
 		progress.Add(1)
 		v := loadValidate(k.Text(addr))
